@@ -29,7 +29,7 @@ def mutants(text):
     limit = len(body.rstrip())            # tests are at the end of the file: mutate only before them
     m = V.mask(text)
     out = []
-    rules = [(r'==', '!='), (r'!=', '=='), (r'&&', '||'), (r'\|\|', '&&'), (r'<=', '<'), (r'>=', '>'), (r'(?<![<>=!\-])>(?![>=])', '>='), (r'(?<![<\-=])<(?![<=])', '<='),
+    rules = [(r'==', '!='), (r'!=', '=='), (r'&&', '||'), (r'\|\|', '&&'), (r'<=', '<'), (r'>=', '>'), (r'(?<= )>(?= )', '>='), (r'(?<= )<(?= )', '<='),
              (r'- ?1\b', '- 0'), (r'\+ ?1\b', '+ 0'), (r'\btrue\b', 'false'), (r'\bfalse\b', 'true'), (r'\.rev\(\)', ''),
              (r'\bPressed\(', 'Released('), (r'\bReleased\(', 'Pressed('), (r'(?<![\w!])!(?=[\w(])', ''), (r'\bbreak;', ''), (r'\.len\(\) > 1\b', '.len() > 0'), (r'\.len\(\) > 0\b', '.len() > 1'),
              (r'\bSome\(', 'None.or(Some('), ]
